@@ -711,6 +711,12 @@ class Sym:
                             env["locals"][lv[1]] = ("mutated", lv[1], bb, env["locals"].get(lv[1]))
                         else:
                             env["mem"].append((lv, ("mutated", lv, bb)))
+                            # &mut of a part of a local: a later read of the whole local must not see its old value
+                            root = lv
+                            while root[0] in ("field", "index", "cindex", "variant"):
+                                root = root[1]
+                            if root[0] == "lv":
+                                env["locals"][root[1]] = ("mutated", root[1], bb, env["locals"].get(root[1]))
                 self._assign(env, p, bb, t["dst"], ("call", bb, path, args))
                 if t.get("target") is None:
                     self._finish(p, env, "diverge", out, max_paths)
